@@ -119,11 +119,12 @@ func (e *Expr) Walk(f func(*Expr)) {
 
 // Exprer computes Exprs for one function.
 type Exprer struct {
-	P     *Program
-	Fn    *ssa.Function
-	memo  map[ssa.Value]*Expr
-	busy  map[ssa.Value]bool
-	depth int
+	P      *Program
+	Fn     *ssa.Function
+	memo   map[ssa.Value]*Expr
+	busy   map[ssa.Value]bool
+	depth  int
+	truncs int
 	// selfAlloc: while rendering the initialising call of a cell, arguments that are the cell itself print as "_"
 	selfAlloc *ssa.Alloc
 }
@@ -178,14 +179,20 @@ func (x *Exprer) E(v ssa.Value) *Expr {
 		return mk("self", "_", v)
 	}
 	if x.depth > maxDepth {
+		x.truncs++
 		return mk("unknown", "…", v)
 	}
 	x.busy[v] = true
 	x.depth++
+	before := x.truncs
 	e := x.compute(v)
 	x.depth--
 	delete(x.busy, v)
-	// do not memoise results that contain a self marker of an outer in-progress value
+	// do not memoise results that contain a self marker of an outer in-progress value, nor results that were
+	// truncated by the depth bound while nested inside another computation (they would differ at top level)
+	if x.truncs != before && x.depth > 0 {
+		return e
+	}
 	if len(x.busy) == 0 || !e.Contains(func(s *Expr) bool { return s.Op == "self" }) {
 		x.memo[v] = e
 	}
